@@ -14,6 +14,15 @@ class BytesReader(BytesIO):
         self.source = source
         self.exception = exception
 
+    def read(self, num_bytes: int) -> bytes:  # type: ignore[override]
+        data = super().read(num_bytes)
+        if len(data) != num_bytes:
+            source = "" if self.source is None else " of " + str(self.source)
+            raise self.exception(
+                "Unexpected end of data{source}".format(source=source)
+            )
+        return data
+
     def read_int(self, num_bytes: int) -> int:
         return int.from_bytes(self.read(num_bytes), "big")
 
